@@ -562,7 +562,7 @@ func (fr *frame) applyContract(d *Decl, callee *ssa.Function, sig *types.Signatu
 	}
 	if d.Kind == "extern" {
 		vc.usedExtern[d.Name] = true
-	} else if d.Has("trusted") {
+	} else if d.Has("trusted") || d.Has("assumed-post") {
 		vc.usedTrusted[d.Name] = true
 	} else if key != "" && !hasAnyProp(d.Props(), fr.rootFr.props) {
 		// a contract proved by another property's check (or by none): this check relies on it
